@@ -305,8 +305,32 @@ class WorkQueue:
         for pump_task in self._pump_tasks:
             pump_task.cancel()
         cancel_awaitables.extend(self._pump_tasks)
+        # Work reported by graph events that have not been handled yet has not
+        # been integrated into the graph, so it must be cancelled separately.
+        channel = self._channel
+        while not channel.empty():
+            graph_event = channel.get_nowait()
+            if isinstance(graph_event, _TaskSuccess):
+                self._cancel_work(graph_event.result.work, reason, cancel_awaitables)
+            elif isinstance(graph_event, _StreamItems):
+                for item in graph_event.items:
+                    self._cancel_work(item.work, reason, cancel_awaitables)
+        channel.put_nowait(_STOP)  # keep waking up a parked event consumer
         if cancel_awaitables:
             await gather(*cancel_awaitables, return_exceptions=True)
+
+    def _cancel_work(
+        self,
+        work: Work | None,
+        reason: BaseException | None,
+        cancel_awaitables: list[Awaitable[Any]],
+    ) -> None:
+        """Cancel the tasks and streams of work that has not been integrated."""
+        if work:
+            for task in work.tasks:
+                self._cancel_task(task, reason, cancel_awaitables)
+            for stream in work.streams:
+                self._cancel_stream(stream, reason, cancel_awaitables)
 
     def _cancel_group(
         self,
